@@ -23,11 +23,11 @@ CHECKS = {
   note='Half-open bins on both axes; finite inputs.',
   technique='exhaustive enumeration + property-based differential testing against a triple-loop histogram'),
  'C14': dict(
-  text='Hypothesis-generated gapped label vectors x reducing functions (exact comparison with per-label computation), monotone multi-cycle phases x functions of phase (exact for linear quantities, bounded interpolation error otherwise, per-cycle affine variants so that mixing cycles is visible) and phase binning against a brute-force per-bin mean for every bin.',
+  text='Hypothesis-generated gapped label vectors (time-ordered, permuted and re-appearing labels; float/int/bool observations) x reducing functions (exact comparison with per-label computation), monotone multi-cycle phases x functions of phase (exact for linear quantities, bounded interpolation error otherwise, per-cycle affine variants so that mixing cycles is visible) and phase binning against a brute-force per-bin mean for every bin.',
   note='Interpolation tolerances are 4x classical bounds calibrated with >=3x head-room; mode=cycle only.',
   technique='property-based testing against direct per-label recomputation and closed-form expectations'),
  'C16': dict(
-  text='Exhaustive enumeration of recording layouts (cycle lengths 1-3, optional gaps) x every selection vector, up to 4/5 cycles fully and every selection vector up to length 9/12 on fixed layouts, plus random instances up to 200 cycles; all 12 map_* and 6 project_* functions compared with set-theoretic definitions.',
+  text='Exhaustive enumeration of recording layouts (cycle lengths 1-3, optional gaps) x every selection vector, up to 4/5 cycles fully and every selection vector up to length 9/12 on fixed layouts, plus random instances up to 200 cycles; all 12 map_* and 6 project_* functions compared with set-theoretic definitions, and the library-built subset / chain vectors compared with the model for every selection.',
   note='Label vectors are built by the reference model as 1-D integer arrays.',
   technique='exhaustive enumeration + property-based testing against set-theoretic reference definitions'),
  'C01': dict(
@@ -35,7 +35,7 @@ CHECKS = {
   note='Convergence errors are an accepted outcome; results cut by sift_thresh are exempt as the property states.',
   technique='property-based testing with an invariant oracle (sum and residual-extrema predicates)'),
  'C04': dict(
-  text='Differential testing of get_next_imf against an independent re-implementation of the stated iteration (bit-exact on the current tree) over stop rules, thresholds, step sizes, iteration limits 1..1000, interpolators and pad widths, with a dedicated generator for the extrema-vanished path and the iteration-limit boundary.',
+  text='Differential testing of get_next_imf against an independent re-implementation of the stated iteration (bit-exact on the current tree) over stop rules, thresholds, step sizes, iteration limits 1..1000, interpolators and pad widths, with a dedicated generator for the extrema-vanished path and the iteration-limit boundary; signals stored as float64/float32/int64/int16; every extraction is repeated through the same caller-owned option objects (unchanged options, identical result).',
   note='scipy interpolators are shared trusted base; mismatches on ill-conditioned stop decisions (within 1e-9 of threshold) are counted as excluded, not reported.',
   technique='property-based differential testing against a reference model'),
  'C05': dict(
@@ -43,11 +43,11 @@ CHECKS = {
   note='scipy splrep/splev/PchipInterpolator trusted; pad_width=0 envelopes may raise cleanly.',
   technique='exhaustive enumeration + property-based testing against reference extrema/envelope models'),
  'C09': dict(
-  text='Hypothesis-generated AM-FM inputs and pure sinusoids over methods x sample rates x amplitudes x phases: shape/range/derivative consistency, accuracy within calibrated tolerances, closed-form phase<->frequency round trip and scale invariance (dyadic and real factors).',
+  text='Hypothesis-generated AM-FM inputs and pure sinusoids over methods x sample rates x amplitudes x phases: shape/range/derivative consistency, accuracy within calibrated tolerances, closed-form phase<->frequency round trip, scale invariance (dyadic and real factors) and independence of every IMF of a 3-D second-level stack from its neighbours.',
   note='Accuracy tolerances are empirical calibrations (>=3x head-room), not derived bounds.',
   technique='property-based testing with metamorphic relations, closed forms and calibrated accuracy bounds'),
  'C17': dict(
-  text='Hypothesis-generated feature arrays (continuous, tie-rich integer, clustered) x K x distance bounds checked against a validity predicate: equal lengths, in-range, injective on both sides, within bound and within the K-th nearest-neighbour distance.',
+  text='Hypothesis-generated feature arrays (continuous, tie-rich integer, clustered) x K x distance bounds checked against a validity predicate: equal lengths, in-range, injective on both sides, within bound and within the K-th nearest-neighbour distance; a second clause matches twice through the same array objects with the contents replaced in place (no state may survive a call).',
   note='Validity predicate only - which of several admissible pairings is returned is not constrained.',
   technique='property-based testing with a validity-predicate oracle'),
  'C02': dict(
@@ -59,7 +59,7 @@ CHECKS = {
   note='Peel mismatches above 1e-8 are only reported when the reference model shows the extraction well conditioned; ensembles use nprocesses=1 with a seeded RNG.',
   technique='property-based testing with differential (peel) and metamorphic (cap-prefix) oracles'),
  'C06': dict(
-  text='Complete enumeration of the finite grid variant x IMF options x interpolation method x extrema options x delivery route (keyword dicts, SiftConfig unpacking, get_func, functools.partial) x nprocesses; the guarded in-tree trace shows what get_next_imf / interp_envelope / get_padded_extrema actually received in every process (workers included) and must equal what was supplied; the four routes must give identical outputs.',
+  text='Complete enumeration of the finite grid variant x IMF options x interpolation method x extrema options x delivery route (keyword dicts, SiftConfig unpacking, get_func, functools.partial) x nprocesses; the guarded in-tree trace shows what get_next_imf / interp_envelope / get_padded_extrema actually received in every process (workers included) and must equal what was supplied; the four routes must give identical outputs; a second clause compares the classic / second-layer sift under custom np.pad options with the pipeline assembled from independent reference stages.',
   note='Observes what each stage receives (EMD_VERIF_TRACE hook); that a stage uses what it receives is C04/C05. The grid is finite and enumerated completely (720 quick / 1440 thorough points x 4 routes).',
   technique='exhaustive configuration enumeration with a trace-based oracle and route-differential comparison'),
  'C07': dict(
@@ -71,7 +71,7 @@ CHECKS = {
   note='Job-to-worker assignments are those the pool produces (sampled, reported in the evidence); classic sift is the trusted building block.',
   technique='property-based testing with a trace-based oracle (noise digests, recomputed member means); schedule sampling'),
  'C19': dict(
-  text='A catalogue of the public numeric entry points driven with generated signals: equivalent layouts must give identical results, multi-column / row-vector / 3-D input to the single-signal sift routines and mismatched lengths to multi-array routines must raise, inputs (also read-only ones) must be byte-identical afterwards, caller-owned option dictionaries deepcopy-equal, and a repeated call identical.',
+  text='A catalogue of the public numeric entry points driven with generated signals under four option sets (step sizes != 1, all stop rules, data-driven mask frequencies): equivalent layouts must give identical results, multi-column / row-vector / 3-D input to the single-signal sift routines and mismatched lengths to multi-array routines must raise, inputs (also read-only ones) must be byte-identical afterwards, caller-owned option dictionaries deepcopy-equal, and a repeated call identical.',
   note='amplitude_normalise and hilberthuang_1d document 2-D input only; any exception type counts as rejection.',
   technique='property-based testing with metamorphic (layout) relations and before/after state comparison'),
  'C20': dict(
@@ -79,7 +79,7 @@ CHECKS = {
   note='The never-set-up state is re-created in-process (validated by the fresh-interpreter clause); console output goes to a counting stream.',
   technique='model-based testing of call histories: exhaustive to depth 3/4, random beyond'),
  'C15': dict(
-  text='Model-based testing of container call histories: Hypothesis draws a phase series and up to 12 operations (metric computation in cycle / augmented mode, metric addition, timings, subset selection with 1-3 condition strings over all six comparators and integer / negative / decimal / exponent literals, chain timings, table export) applied in lock-step to a cache-on and a cache-off container; a reference model on the independently recomputed cycle partition is compared after every step.',
+  text='Model-based testing of container call histories: Hypothesis draws a phase series and up to 12 operations (metric computation in cycle / augmented mode, metric addition, timings, subset selection with 1-3 condition strings over all six comparators and integer / negative / decimal / exponent literals, re-picking the same conditions, chain timings and chain metrics, table export) applied in lock-step to a cache-on and a cache-off container; a reference model on the independently recomputed cycle partition is compared after every step.',
   note='Documented rejections (chain metrics before a subset, empty selections, wrong-length metrics) are accepted. One open known finding (two definitions of the augmented segment on non-monotone cycles) is excluded by construction and counted; the search continues behind it.',
   technique='model-based (stateful) property testing of operation histories with a lock-step twin and a reference model'),
  'C18': dict(
